@@ -19,23 +19,28 @@ Record PInv0 (s : fs) (C : commits) (A : list (N * N)) : Prop := mkPInv0 {
 Lemma pinv0_mono s C A C' A' :
   PInv0 s C A -> incl C C' -> incl A' A -> PInv0 s C' A'.
 Proof.
-  intros [] HC HA. constructor; auto.
+  intros [pi_cons0 pi_benign0 pi_sealed0 pi_disj0 pi_inj0 pi_names0 pi_bound0 pi_acked0] HC HA. constructor; auto.
   intros t i x H. destruct (pi_sealed0 t i x H). split; auto.
 Qed.
 
 Lemma pinv0_empty : PInv0 fs_empty [] [].
 Proof.
-  constructor; cbn; try (constructor; fail); try tauto.
+  constructor; cbn.
   - reflexivity.
+  - constructor.
+  - intros t i x [].
   - intros n x m _ H. discriminate.
+  - constructor.
+  - constructor.
   - intros n x [[]|[]].
+  - intros a [].
 Qed.
 
 (* ------------------------------------------------------------------ crash states of an invariant state *)
 
 Lemma pinv_crash s C A c : PInv0 s C A -> crash_cache s c -> crash_ok C A c.
 Proof.
-  intros [] ((bs & Hd) & Hdata). split.
+  intros [pi_cons0 pi_benign0 pi_sealed0 pi_disj0 pi_inj0 pi_names0 pi_bound0 pi_acked0] ((bs & Hd) & Hdata). split.
   - intros t i x Hin. rewrite Hd in Hin.
     apply (apply_dops_upper _ (Forall_select _ _ pi_benign0 bs)) in Hin; [|reflexivity].
     destruct (pi_sealed0 t i x Hin) as (Hcl & HC). rewrite (Hdata x Hcl). exact HC.
@@ -46,7 +51,7 @@ Qed.
 
 (* ------------------------------------------------------------------ preservation, mutation by mutation *)
 
-Lemma NoDup_snd_unique d n m x : NoDup (map snd d) -> In (n, x) d -> In (m, x) d -> n = m.
+Lemma NoDup_snd_unique (d : dirT) n m x : NoDup (map snd d) -> In (n, x) d -> In (m, x) d -> n = m.
 Proof.
   induction d as [|[k y] d IH]; cbn; [tauto|]. intros Hd H1 H2. inversion Hd; subst.
   destruct H1 as [H1|H1], H2 as [H2|H2].
@@ -69,7 +74,7 @@ Lemma pinv0_set_inode s C A x f' :
   ((exists m, is_fin m = true /\ In (m, x) (sdir s)) -> f_dirty f' = false /\ f_cur f' = f_cur (inodes s x)) ->
   PInv0 (mkFS (set_inode (inodes s) x f') (dir s) (sdir s) (pend s) (nexti s)) C A.
 Proof.
-  intros [] Hx. constructor; cbn; auto.
+  intros [pi_cons0 pi_benign0 pi_sealed0 pi_disj0 pi_inj0 pi_names0 pi_bound0 pi_acked0] Hx. constructor; cbn; auto.
   intros t i y Hin. destruct (pi_sealed0 t i y Hin) as (Hcl & HC).
   destruct (N.eq_dec y x) as [->|Hne].
   - rewrite set_inode_same. destruct Hx as (Hd & Hc); [exists (NSnap t i); auto|]. rewrite Hd, Hc. auto.
@@ -79,7 +84,7 @@ Qed.
 Lemma tmp_not_sealed s C A n x :
   PInv0 s C A -> is_tmp n = true -> lookup n (dir s) = Some x ->
   ~ (exists m, is_fin m = true /\ In (m, x) (sdir s)).
-Proof. intros [] Ht Hl (m & Hf & Hin). eapply pi_disj0; eauto. Qed.
+Proof. intros [pi_cons0 pi_benign0 pi_sealed0 pi_disj0 pi_inj0 pi_names0 pi_bound0 pi_acked0] Ht Hl (m & Hf & Hin). eapply pi_disj0; eauto. Qed.
 
 Inductive safe_mut (A : list (N * N)) (s : fs) : mut -> Prop :=
 | SM_open n : is_tmp n = true -> safe_mut A s (MOpenCT n)
@@ -92,18 +97,18 @@ Inductive safe_mut (A : list (N * N)) (s : fs) : mut -> Prop :=
 
 Lemma safe_preserves s C A m : PInv0 s C A -> safe_mut A s m -> PInv0 (apply_mut s m) C A.
 Proof.
-  intros HI Hs. pose proof HI as HI'. destruct HI' as [].
+  intros HI Hs. pose proof HI as HI'. destruct HI' as [pi_cons0 pi_benign0 pi_sealed0 pi_disj0 pi_inj0 pi_names0 pi_bound0 pi_acked0].
   destruct Hs as [n Hn|n d Hn|n| |a Ha]; cbn [apply_mut].
   - (* open: create or truncate *)
     destruct (lookup n (dir s)) as [x|] eqn:Hl.
     + destruct (f_cur (inodes s x)); auto.
-      apply pinv0_set_inode; auto. intros H. exfalso. eapply tmp_not_sealed; eauto.
+      apply pinv0_set_inode; [exact HI|]. intros H. exfalso. eapply tmp_not_sealed; eauto.
     + set (y := nexti s).
       assert (Hfresh : forall k z, In (k, z) (sdir s) \/ In (k, z) (dir s) -> z <> y).
       { intros k z H. apply pi_bound0 in H. unfold y. lia. }
       constructor; cbn [dir sdir pend inodes nexti].
       * apply (apply_mut_consistent s (MOpenCT n)) in pi_cons0. cbn in pi_cons0. rewrite Hl in pi_cons0. exact pi_cons0.
-      * apply Forall_app. split; auto. constructor; [exact Hn|constructor].
+      * apply Forall_app. split; [exact pi_benign0|constructor; [exact Hn|constructor]].
       * intros t i x Hin. destruct (pi_sealed0 t i x Hin). rewrite set_inode_other; auto.
         eapply Hfresh. left. exact Hin.
       * intros n' x m Ht Hl' Hf Hin.
@@ -123,10 +128,10 @@ Proof.
         apply In_bind. right. split; auto. intros ->. eapply fin_not_tmp; eauto.
   - (* write through a temporary name *)
     destruct (lookup n (dir s)) as [x|] eqn:Hl; auto.
-    apply pinv0_set_inode; auto. intros H. exfalso. eapply tmp_not_sealed; eauto.
+    apply pinv0_set_inode; [exact HI|]. intros H. exfalso. eapply tmp_not_sealed; eauto.
   - (* fsync of any file *)
     destruct (lookup n (dir s)) as [x|] eqn:Hl; auto.
-    apply pinv0_set_inode; auto. intros (m & Hf & Hin). cbn. split; auto.
+    apply pinv0_set_inode; [exact HI|]. intros _. cbn. split; reflexivity.
   - (* directory fsync *)
     constructor; cbn [dir sdir pend inodes nexti]; auto.
     + reflexivity.
@@ -139,7 +144,7 @@ Proof.
     destruct (lookup a (dir s)) as [x0|] eqn:Hl; auto.
     constructor; cbn [dir sdir pend inodes nexti]; auto.
     + apply (apply_mut_consistent s (MUnlink a)) in pi_cons0. cbn in pi_cons0. rewrite Hl in pi_cons0. exact pi_cons0.
-    + apply Forall_app. split; auto. constructor; [exact I|constructor].
+    + apply Forall_app. split; [exact pi_benign0|constructor; [exact I|constructor]].
     + intros n x m Ht Hl' Hf. apply lookup_remove_some in Hl'. destruct Hl'. eapply pi_disj0; eauto.
     + apply NoDup_map_filter. exact pi_inj0.
     + apply NoDup_map_filter. exact pi_names0.
@@ -204,10 +209,10 @@ Proof. vm_compute. lia. Qed.
 
 Lemma temp_order_tmp d oracle n : In n (temp_order d oracle) -> is_tmp n = true.
 Proof.
-  unfold temp_order, temps. rewrite in_app_iff, !filter_In. intros [(_ & H)|(H & _)].
-  - unfold mem_name in H. apply existsb_exists in H. destruct H as (z & Hz & Heq).
+  unfold temp_order, temps. rewrite in_app_iff. intros [H|H]; apply filter_In in H; destruct H as (H1 & H2).
+  - unfold mem_name in H2. apply existsb_exists in H2. destruct H2 as (z & Hz & Heq).
     apply name_eqb_eq in Heq. subst. apply filter_In in Hz. tauto.
-  - apply filter_In in H. tauto.
+  - apply filter_In in H1. tauto.
 Qed.
 
 Lemma finals_NoDup d : NoDup (map fst d) -> NoDup (finals d).
@@ -216,7 +221,7 @@ Proof. intros H. unfold finals. apply sort_NoDup. apply NoDup_filter. exact H. Q
 (* cleanupSnapshots is safe in every invariant state, whatever order Readdirnames produced *)
 Lemma cleanup_safe s C A oracle : PInv0 s C A -> safe_trace A s (cleanup_muts (dir s) oracle).
 Proof.
-  intros HI. pose proof HI as []. unfold cleanup_muts. rewrite <- map_app.
+  intros HI. pose proof HI as [pi_cons0 pi_benign0 pi_sealed0 pi_disj0 pi_inj0 pi_names0 pi_bound0 pi_acked0]. unfold cleanup_muts. rewrite <- map_app.
   apply safe_unlinks. intros a0 Ha0.
   destruct (pi_acked0 a0 Ha0) as (m & x & Hf & Hin & Hle).
   assert (Hm : In m (finals (dir s))) by (apply finals_In; eauto).
